@@ -20,6 +20,7 @@
 #include <mm/msg_allocator.h>
 
 #include <stdalign.h>
+#include <verif_hooks.h>
 #include <stdatomic.h>
 
 /// Determine an ordering between two elements in a queue
@@ -92,6 +93,7 @@ void msg_queue_global_fini(void)
  */
 static inline void msg_queue_insert_queued(void)
 {
+	VERIF_YIELD(23);
 	struct lp_msg *m = atomic_exchange_explicit(&queues[rid].list, NULL, memory_order_acquire);
 	while(m != NULL) {
 		struct q_elem qe = {.t = m->dest_t, .m = m};
@@ -133,9 +135,14 @@ simtime_t msg_queue_time_peek(void)
 void msg_queue_insert(struct lp_msg *msg)
 {
 	_Atomic(struct lp_msg *) *list_p = &queues[lid_to_rid(msg->dest)].list;
+	VERIF_YIELD(20);
 	msg->next = atomic_load_explicit(list_p, memory_order_relaxed);
+	VERIF_YIELD(21);
 	while(unlikely(!atomic_compare_exchange_weak_explicit(list_p, &msg->next, msg, memory_order_release,
 	    memory_order_relaxed)))
+#ifdef ROOTSIM_VERIF
+		verif_yield(22),
+#endif
 		spin_pause();
 }
 
